@@ -289,8 +289,16 @@ impl Hist {
         out.ob(format!("profile:{}", g.profile));
         let cfg = HistoryCfg { alphabet: sp.alphabet, max_len, emit_mask: 0 };
         rng.clear_record();
-        let o = match edit::run_history(&g, &mut rng, &cfg, 1) {
-            Ok(o) => o,
+        // 1 base in 4: the module is encoded twice and the SECOND output is judged (the references must be right in every encoding)
+        let twice = fnv(&g.bytes) % 4 == 0;
+        let o = match edit::run_history(&g, &mut rng, &cfg, if twice { 2 } else { 1 }) {
+            Ok(mut o) => {
+                if let Some(s) = o.second.take() {
+                    out.ob("second-encoding-judged");
+                    o.encoded = s;
+                }
+                o
+            }
             Err(e) => {
                 // parse failure on a valid base is C01's subject; here it is inconclusive
                 out.inconclusive = Some(format!("base not usable: {}", crate::runner::norm_msg(&e)));
